@@ -58,7 +58,7 @@ func (g *tplGen) expr(depth int) string {
 	if depth <= 0 {
 		return g.atom()
 	}
-	switch g.r.Intn(14) {
+	switch g.r.Intn(15) {
 	case 0, 1:
 		return g.atom()
 	case 2, 3, 4:
@@ -71,6 +71,15 @@ func (g *tplGen) expr(depth int) string {
 		return g.expr(depth-1) + "[" + g.expr(depth-1) + "]"
 	case 8:
 		return hx.Pick(g.r, ctxPaths) + "." + hx.Pick(g.r, []string{"name", "value", "0", "1", "99", "uuid", "nope", "__default__", "extra"})
+	case 12:
+		// an anonymous function applied on the spot, possibly to itself or to another function value
+		body := hx.Pick(g.r, []string{"x", "x(x)", "x(1)", "x(x)(x)", "(y) => x(y)", "(y) => x(x(y))", "x & \"a\"", "x + 1", "foreach(array(1, 2), x)"})
+		arg := hx.Pick(g.r, []string{"(x) => x", "(x) => x(x)", "(f) => (y) => f(f(y))", "upper", "1", "(x) => x + 1", "contact.name", "(x) => (y) => x"})
+		e := "((x) => " + body + ")(" + arg + ")"
+		for i := g.r.Intn(3); i > 0; i-- {
+			e += "(" + hx.Pick(g.r, []string{"(x) => x + 1", "0", "(f) => (y) => f(f(y))", "\"a\""}) + ")"
+		}
+		return e
 	case 9:
 		// higher-order with an anonymous function
 		fn := hx.Pick(g.r, []string{"foreach", "foreach_value", "filter"})
@@ -146,6 +155,12 @@ func tplCorpus() []string {
 	for _, l := range numberLiterals() {
 		lits = append(lits, "@("+l+")", "@("+l+" + 1)", "@(text("+l+") & \"\")", "@(-"+l+" = "+l+")", "@(array("+l+", \"\")[0])")
 	}
+	// anonymous functions applied to function VALUES: self application, iteration by Church numerals
+	lits = append(lits, "@(((f) => f(f))((f) => f(f)))", "@(((f) => f(f)(1))((f) => f(f)))", "@(((t) => t(t)(t)(t)(t)((x) => x + 1)(0))((f) => (x) => f(f(x))))",
+		"@(((t) => t(t)(t)((x) => x + 1)(0))((f) => (x) => f(f(x))))", "@(((t) => t(t)((x) => x + 1)(0))((f) => (x) => f(f(x))))", "@(((f) => (x) => f(f(f(x))))((x) => x & \"a\")(\"\"))",
+		"@(foreach(array(1, 2, 3), (x) => ((f) => f(f))((f) => f(f))))", "@(((f, n) => f(f, n))((f, n) => f(f, n + 1), 0))", "@(((x) => x)((x) => x)(5))", "@(((f) => f)(upper)(\"a\"))",
+		"@(2 ^ 99999999999)", "@(7 ^ 999999999 > 1)", "@(9999999999999999999999999999999999999999999999999999999999999999 ^ 9999999999999999999999999999999999999999999999999999999999999.5)",
+		"@(2 ^ 100000)", "@(2 ^ 100001)", "@(123456789.5 ^ 100000)", "@(repeat(\"x\", 2147483647))", "@(repeat(\"ab\", 50000))", "@(repeat(\"ab\", 50001))", "@(text_length(repeat(\"x\", 999999999)))")
 	lits = append(lits, "@(format(array(\"a\\nb\", \"\")))", "@(format(array(\"\", \"x\\ny\")))", "@(format(array(array(), \"a\\nb\")))", "@(format(object(\"a\", \"\", \"b\", \"x\\ny\")))")
 	return append(lits, []string{
 		"", "@", "@@", "@(", "@()", "@(\"", "@(\"a\\\")", "@(\"a\\\\\")", "@contact.", "@contact..name", "@(contact.)", "@(1 / 0)", "@(mod(5, 0))",
